@@ -22,7 +22,8 @@ pub const F_ARGV: u32 = 512;
 pub const F_IDENT: u32 = 1024;
 pub const F_FS: u32 = 2048;
 pub const F_DISK: u32 = 4096;
-pub const ALL_FAULTS: [(u32, &str); 13] = [(F_DISK, "warm_disk"), (F_IDENT, "identity"), (F_FS, "filesystem"), (F_ENTROPY, "entropy"), (F_THREAD, "thread"), (F_HISTORY, "history"), (F_ENV, "env"), (F_CLOCK, "clock"), (F_HEAP, "heap"), (F_PID, "pid"), (F_ORDER, "order_policy"), (F_CWD, "cwd"), (F_ARGV, "argv")];
+pub const F_SPANS: u32 = 8192;
+pub const ALL_FAULTS: [(u32, &str); 14] = [(F_SPANS, "token_built_inputs"), (F_DISK, "warm_disk"), (F_IDENT, "identity"), (F_FS, "filesystem"), (F_ENTROPY, "entropy"), (F_THREAD, "thread"), (F_HISTORY, "history"), (F_ENV, "env"), (F_CLOCK, "clock"), (F_HEAP, "heap"), (F_PID, "pid"), (F_ORDER, "order_policy"), (F_CWD, "cwd"), (F_ARGV, "argv")];
 
 pub fn fault_names(mask: u32) -> Vec<&'static str> {
     ALL_FAULTS.iter().filter(|(b, _)| mask & b != 0).map(|(_, n)| *n).collect()
@@ -76,6 +77,8 @@ impl Build {
 pub enum Event {
     Spawn { tid: u32 },
     Expand { tid: u32, input: u32 },
+    /// like Expand, but the input is handed over as tokens without source locations
+    ExpandTokens { tid: u32, input: u32 },
     Perturb { tid: u32, n: u32, seed: u64 },
     Order { tid: u32, policy: u8, seed: u64 },
     /// attribution only: order policy restricted to one iteration site "<file>:<line>"
@@ -184,6 +187,8 @@ pub struct Obs {
     pub verdict: String,
     pub text: String,
     pub spans: String,
+    /// the input was handed over as tokens without source locations
+    pub token_built: bool,
     pub containers: u64,
     pub probes: Vec<Probe>,
 }
@@ -267,7 +272,7 @@ pub fn run_host(env: &Env, backend: Backend, build: Build, texts: &[(u32, String
     let bin = env.host_bin(backend, build).ok_or_else(|| HarnessError(format!("no host binary for {}/{}", backend.tag(), build.tag())))?;
     let mut plan = String::new();
     // only define the inputs this host uses, in id order
-    let mut used: Vec<u32> = cfg.events.iter().filter_map(|e| if let Event::Expand { input, .. } = e { Some(*input) } else { None }).collect();
+    let mut used: Vec<u32> = cfg.events.iter().filter_map(|e| if let Event::Expand { input, .. } | Event::ExpandTokens { input, .. } = e { Some(*input) } else { None }).collect();
     used.sort();
     used.dedup();
     for id in &used {
@@ -278,6 +283,7 @@ pub fn run_host(env: &Env, backend: Backend, build: Build, texts: &[(u32, String
         match e {
             Event::Spawn { tid } => plan.push_str(&format!("T {}\n", tid)),
             Event::Expand { tid, input } => plan.push_str(&format!("E {} {} {}\n", pos, tid, input)),
+            Event::ExpandTokens { tid, input } => plan.push_str(&format!("E {} {} {} t\n", pos, tid, input)),
             Event::Perturb { tid, n, seed } => plan.push_str(&format!("P {} {} {}\n", tid, n, seed)),
             Event::Order { tid, policy, seed } => plan.push_str(&format!("O {} {} {}\n", tid, policy, seed)),
             Event::OrderAt { tid, policy, seed, site } => plan.push_str(&format!("O {} {} {} {}\n", tid, policy, seed, site)),
@@ -398,7 +404,11 @@ pub fn run_host(env: &Env, backend: Backend, build: Build, texts: &[(u32, String
     if !st.success() {
         return Err(HarnessError(format!("host exited with {:?}: {}", st, err.trim())));
     }
-    parse_log(&out)
+    let mut log = parse_log(&out)?;
+    for o in log.obs.iter_mut() {
+        o.token_built = matches!(cfg.events.get(o.pos), Some(Event::ExpandTokens { .. }));
+    }
+    Ok(log)
 }
 
 pub fn parse_log(out: &str) -> Result<HostLog, HarnessError> {
@@ -408,7 +418,7 @@ pub fn parse_log(out: &str) -> Result<HostLog, HarnessError> {
         let f: Vec<&str> = line.split(' ').collect();
         match f[0] {
             "R" if f.len() == 7 => {
-                log.obs.push(Obs { pos: f[1].parse().map_err(|_| HarnessError("bad R".into()))?, tid: f[2].parse().map_err(|_| HarnessError("bad R".into()))?, input: f[3].parse().map_err(|_| HarnessError("bad R".into()))?, verdict: f[4].to_string(), text: unesc(f[5]), spans: unesc(f[6]), containers: 0, probes: vec![] });
+                log.obs.push(Obs { pos: f[1].parse().map_err(|_| HarnessError("bad R".into()))?, tid: f[2].parse().map_err(|_| HarnessError("bad R".into()))?, input: f[3].parse().map_err(|_| HarnessError("bad R".into()))?, verdict: f[4].to_string(), text: unesc(f[5]), spans: unesc(f[6]), token_built: false, containers: 0, probes: vec![] });
             },
             "B" if f.len() >= 3 => {
                 let pos: usize = f[1].parse().map_err(|_| HarnessError("bad B".into()))?;
@@ -737,6 +747,11 @@ pub fn plan_world(ws: u64, corpus: &Corpus, o: &PlanOpts) -> World {
     for i in 0..k {
         reference.events.push(Event::Expand { tid: 0, input: i as u32 });
     }
+    if faults & F_SPANS != 0 {
+        for i in 0..k {
+            reference.events.push(Event::ExpandTokens { tid: 0, input: i as u32 });
+        }
+    }
     let mut hosts = vec![reference.clone()];
     let h = if marathon { 2 } else { rng.range(2, 4) };
     for hi in 0..h {
@@ -843,7 +858,11 @@ pub fn plan_world(ws: u64, corpus: &Corpus, o: &PlanOpts) -> World {
                 if f & F_HEAP != 0 && rng.chance(1, 3) {
                     events.push(Event::Perturb { tid, n: rng.range(1, 300) as u32, seed: rng.next_u64() });
                 }
-                events.push(Event::Expand { tid, input: *id });
+                if f & F_SPANS != 0 && rng.chance(1, 3) {
+                    events.push(Event::ExpandTokens { tid, input: *id });
+                } else {
+                    events.push(Event::Expand { tid, input: *id });
+                }
             }
         } else {
             for id in &order {
@@ -860,7 +879,11 @@ pub fn plan_world(ws: u64, corpus: &Corpus, o: &PlanOpts) -> World {
                 if f & F_HEAP != 0 && rng.chance(1, 3) {
                     events.push(Event::Perturb { tid, n: rng.range(1, 300) as u32, seed: rng.next_u64() });
                 }
-                events.push(Event::Expand { tid, input: *id });
+                if f & F_SPANS != 0 && rng.chance(1, 3) {
+                    events.push(Event::ExpandTokens { tid, input: *id });
+                } else {
+                    events.push(Event::Expand { tid, input: *id });
+                }
             }
         }
         cfg.events = events;
